@@ -3,6 +3,7 @@
 package ship
 
 import (
+	"sync"
 	"time"
 
 	"github.com/enbility/ship-go/zzvrt"
@@ -11,10 +12,43 @@ import (
 // timeout deliveries observed by the harness (handleState is cut to this recorder in the C14 run)
 var c14Delivered int
 
+// ghost of the symbolic-time harness: every armed timer with its expiry instant, the instant it was stopped or replaced
+// (if it was), and whether a delivery has been attributed to it
+type c14T struct {
+	due      time.Duration
+	ended    bool
+	endedAt  time.Duration
+	consumed bool
+}
+
+var (
+	c14mu     sync.Mutex
+	c14Sym    bool
+	c14Timers []*c14T
+	c14Slack  time.Duration
+)
+
 func vHandleState(c *ShipConnection, timeout bool, message []byte) {
 	if timeout {
 		c14Delivered++
 		zzvrt.Log("timeout delivered")
+		if c14Sym {
+			// a delivery is legitimate iff it can be attributed to a timer that has expired and was still the current one
+			// at its expiry instant (not stopped or replaced before), and that has not delivered already
+			now := zzvrt.Now()
+			c14mu.Lock()
+			ok := false
+			for k := len(c14Timers) - 1; k >= 0; k-- { // the latest eligible timer first
+				t := c14Timers[k]
+				if !t.consumed && t.due <= now+c14Slack && (!t.ended || t.endedAt+c14Slack >= t.due) {
+					t.consumed = true
+					ok = true
+					break
+				}
+			}
+			c14mu.Unlock()
+			zzvrt.Assert(ok, "C14.timeout-delivered-by-a-timer-stopped-or-replaced-before-its-expiry")
+		}
 	}
 }
 
@@ -122,6 +156,74 @@ func H_C14_Concurrent() {
 	zzvrt.Assert(c14Delivered >= want, "C14.armed-timer-did-not-fire")
 	zzvrt.Cover("c14.end")
 }
+
+// c14SymTime: time is a solver variable. A program of arm(short) / arm(long) / stop operations, each preceded by a
+// symbolic pause; both durations are symbolic (short 5..60 s, long at least 10 s more, up to 120 s), pauses 0..30 s, so
+// timers may expire in the middle of the program or never. Whatever the solver picks for durations and pauses and whatever
+// the interleaving: a timeout is delivered only while a timer is current and not before that timer's own deadline, and a
+// timer left armed at the end eventually delivers. (Natively the same program runs in milliseconds instead of seconds.)
+func c14SymTime(nops int) {
+	e := newEnv(ShipRoleServer, "")
+	c := e.c
+	c14Delivered = 0
+	c14Sym, c14Timers, c14Slack = true, nil, 0
+	zzvrt.SymbolicClock()
+	short := time.Duration(zzvrt.Int("d.short", 5_000_000_000, 60_000_000_000))
+	long := time.Duration(zzvrt.Int("d.long", 15_000_000_000, 120_000_000_000))
+	zzvrt.Assume(long >= short+10_000_000_000)
+	scale := func(d time.Duration) time.Duration {
+		if zzvrt.Symbolic() {
+			return d
+		}
+		return d / 1000
+	}
+	if !zzvrt.Symbolic() {
+		c14Slack = 3 * time.Millisecond
+	}
+	short, long = scale(short), scale(long)
+	endCurrent := func() {
+		c14mu.Lock()
+		if n := len(c14Timers); n > 0 && !c14Timers[n-1].ended {
+			c14Timers[n-1].ended, c14Timers[n-1].endedAt = true, zzvrt.Now()
+		}
+		c14mu.Unlock()
+	}
+	for i := 0; i < nops; i++ {
+		zzvrt.Advance(scale(time.Duration(zzvrt.Int("pause", 0, 30_000_000_000))))
+		op := zzvrt.Choice("op", 3)
+		d := short
+		if op == 1 {
+			d = long
+		}
+		switch op {
+		case 0, 1:
+			endCurrent() // arming replaces the current timer
+			c14mu.Lock()
+			c14Timers = append(c14Timers, &c14T{due: zzvrt.Now() + d})
+			c14mu.Unlock()
+			c.setHandshakeTimer(timeoutTimerTypeWaitForReady, d)
+		case 2:
+			endCurrent()
+			c.stopHandshakeTimer()
+		}
+	}
+	zzvrt.WaitQuiescent()
+	zzvrt.Advance(scale(200_000_000_000))
+	zzvrt.WaitQuiescent()
+	c14mu.Lock()
+	if n := len(c14Timers); n > 0 && !c14Timers[n-1].ended {
+		zzvrt.Assert(c14Timers[n-1].consumed, "C14.armed-timer-did-not-fire")
+	}
+	arms := len(c14Timers)
+	c14mu.Unlock()
+	zzvrt.Assert(c14Delivered <= arms, "C14.more-timeouts-than-armed-timers")
+	zzvrt.Assert(zzvrt.NumLive("") == 0, "C14.timer-goroutine-leaked")
+	c14Sym = false
+	zzvrt.Cover("c14.end")
+}
+
+func H_C14_SymTime2() { c14SymTime(2) }
+func H_C14_SymTime3() { c14SymTime(3) }
 
 func H_C14_Timer2() { c14Timer(2) }
 func H_C14_Timer3() { c14Timer(3) }
